@@ -338,7 +338,7 @@ func c05(c *Ctx) {
 			}
 			ref := one(c, "data.Ref in "+pr.fn, callsIn(f, AnyCM(Callee("mem", "Buffer.Ref"), Callee("mem", "BufferSlice.Ref"))))
 			c.Expect(FieldLoad(fData)(ref.Common().Value), ref, f, pr.fn+":refs-the-frame's-buffer", "the reference is taken on something other than the frame's buffer")
-			c.Expect(ref.Block() == dataW.Block() && instrDominates(ref, dataW), ref, f, pr.fn+":ref-with-the-handoff", "the frame's buffer is handed over without a reference taken on the same path (the reader loop frees the frame)")
+			c.Expect(thenAlways(ref, dataW), ref, f, pr.fn+":ref-with-the-handoff", "the frame's buffer is handed over without a reference taken on the same path (the reader loop frees the frame)")
 			dl := CallRes(AnyCM(Callee("mem", "Buffer.Len"), Callee("mem", "BufferSlice.Len")), 0)
 			c.MustFact(dataW, pr.fn+":only-non-empty-payload", CmpInt(dl, token.GTR, 0))
 			// non-empty accepted payload is always handed over: once the payload length is known,
@@ -414,8 +414,11 @@ func c05(c *Ctx) {
 				}
 				last := r.Results[len(r.Results)-1]
 				if ConstNil(strip(last)) {
-					for _, p := range r.Block().Preds {
-						c.Expect(p == hdr, r, f, d.fn+":success-only-when-everything-was-read", "success is returned from inside the read loop (before the requested count reached zero)")
+					// not from inside the loop: the return is not dominated by the loop body's entry
+					for _, body := range hdr.Succs {
+						if reachableBlocks(body)[hdr] {
+							c.Expect(!(body == r.Block() || body.Dominates(r.Block())), r, f, d.fn+":success-only-when-everything-was-read", "success is returned from inside the read loop (before the requested count reached zero)")
+						}
 					}
 					c.EnteredOnlyWhen(r.Block(), d.fn+":success-only-with-nothing-remaining", CmpInt(remaining, token.LEQ, 0))
 				}
